@@ -265,14 +265,22 @@ class GuardWalk:
             elif isinstance(ch, ast.slice if hasattr(ast, 'slice') else ()):
                 pass
 
-    def _values(self, e: ast.AST, pc):
+    def _values(self, e: ast.AST, pc, depth: int = 3):
         """split conditional expressions into (value, guard) alternatives"""
         if isinstance(e, ast.IfExp):
             t = formula_of(e.test)
-            yield from self._values(e.body, f_and(pc, t))
-            yield from self._values(e.orelse, f_and(pc, f_not(t)))
-        else:
-            yield e, pc
+            yield from self._values(e.body, f_and(pc, t), depth)
+            yield from self._values(e.orelse, f_and(pc, f_not(t)), depth)
+            return
+        if isinstance(e, ast.Name) and depth > 0 and e.id not in self.params:
+            ds = self.defs.get(e.id, [])
+            # a local assigned on several paths: the last assignment whose path was taken
+            if len(ds) >= 2 and all(d[0] == 'value' and not d[4] for d in ds):
+                for k, d in enumerate(ds):
+                    g = f_and(pc, d[3], *[f_not(l[3]) for l in ds[k + 1:]])
+                    yield from self._values(d[1], g, depth - 1)
+                return
+        yield e, pc
 
     # --------------------------------------------------------- statements
     def block(self, stmts: Sequence[ast.stmt], pc, loops):
